@@ -26,11 +26,16 @@ import (
 
 	"aaverif/internal/earlyrand"
 	"aaverif/internal/plan"
+	"aaverif/internal/rng"
 
 	"github.com/islishude/bip39"
 )
 
 var errCustom = errors.New("verif: scripted source failure")
+
+// concMode: several goroutines call the package; interposer events are then
+// attributed by goroutine id at the end instead of being drained per call.
+var concMode bool
 
 var base = time.Now()
 
@@ -265,7 +270,7 @@ func (st *state) exec(op *plan.Op, shared *scripted) (res plan.Res) {
 		prev = bip39.VerifSwapRandSource(src)
 	}
 	isNew := op.Fn == "new" || op.Fn == "newchk"
-	if isNew && src == nil && !op.Shared && earlyrand.Wrapper != nil {
+	if isNew && src == nil && !op.Shared && earlyrand.Wrapper != nil && !concMode {
 		earlyrand.Wrapper.Drain()
 	}
 	for i := 0; i < op.Spin; i++ {
@@ -356,6 +361,19 @@ func (st *state) exec(op *plan.Op, shared *scripted) (res plan.Res) {
 				}
 			}
 			res.Dig, res.OutOK = hex.EncodeToString(h.Sum(nil)), true
+		case "strrand":
+			// String() of op.N pseudo-random Language values drawn from the harness PRNG
+			// seeded with op.Lo, in one uninterrupted history; digest of all names and
+			// the last name itself
+			g := rng.New(uint64(op.Lo), "strrand")
+			h := sha256.New()
+			last := ""
+			for k := int64(0); k < op.N; k++ {
+				last = bip39.Language(int64(g.Uint64())).String()
+				io.WriteString(h, last)
+				h.Write([]byte{'\n'})
+			}
+			res.Dig, res.Out, res.OutOK = hex.EncodeToString(h.Sum(nil)), outHex([]byte(last)), true
 		case "ident":
 			probe := &scripted{}
 			pv := bip39.VerifSwapRandSource(probe)
@@ -398,7 +416,7 @@ func (st *state) exec(op *plan.Op, shared *scripted) (res plan.Res) {
 		// attribution happens in the parent through goroutine ids
 		res.Info = append(res.Info, "goid="+strconv.FormatInt(goid(), 10))
 	}
-	if isNew && src == nil && !op.Shared && earlyrand.Wrapper != nil {
+	if isNew && src == nil && !op.Shared && earlyrand.Wrapper != nil && !concMode {
 		for _, e := range earlyrand.Wrapper.Drain() {
 			ev := plan.ReadEv{Req: e.Req, N: e.N, D: hex.EncodeToString(e.Data)}
 			if e.Err != nil {
@@ -478,6 +496,10 @@ func runConc(path string) {
 		// happens-before edge, so the monitor itself adds no race
 		bip39.VerifSwapRandSource(shared)
 	}
+	if earlyrand.Wrapper != nil {
+		earlyrand.TrackG = true // set before the workers exist
+		concMode = true
+	}
 	start := make(chan struct{})
 	results := make([][]plan.Res, len(c.Workers))
 	gids := make([]int64, len(c.Workers))
@@ -495,6 +517,43 @@ func runConc(path string) {
 				r := st.exec(&ops[i], shared)
 				r.G = w
 				local = append(local, r)
+			}
+			// later passes: keep one sample of every distinct observation per op
+			type aggKey struct {
+				i   int
+				dig [32]byte
+			}
+			agg := map[aggKey]*plan.Res{}
+			var order []aggKey
+			for loop := 1; loop < c.Loops; loop++ {
+				for i := range ops {
+					r := st.exec(&ops[i], shared)
+					h := sha256.New()
+					io.WriteString(h, r.Out)
+					if r.Err != nil {
+						io.WriteString(h, "|err|"+r.Err.Msg)
+						fmt.Fprintf(h, "%v%v%v", r.Err.WordLen, r.Err.EntLen, r.Err.Checksum)
+					}
+					if r.B != nil {
+						fmt.Fprintf(h, "|b|%v", *r.B)
+					}
+					if r.Panic != "" {
+						io.WriteString(h, "|panic")
+					}
+					k := aggKey{i: i}
+					copy(k.dig[:], h.Sum(nil))
+					if a, ok := agg[k]; ok {
+						a.Agg++
+					} else {
+						r.G, r.Agg = w, 1
+						rr := r
+						agg[k] = &rr
+						order = append(order, k)
+					}
+				}
+			}
+			for _, k := range order {
+				local = append(local, *agg[k])
 			}
 			results[w] = local
 		}(w)
@@ -516,6 +575,16 @@ func runConc(path string) {
 	}
 	if shared != nil {
 		tr.Reads = shared.log
+	}
+	if earlyrand.Wrapper != nil {
+		// default-source reads seen at the crypto/rand boundary, with the reading goroutine
+		for _, e := range earlyrand.Wrapper.Drain() {
+			ev := plan.ReadEv{Req: e.Req, N: e.N, G: e.G, D: hex.EncodeToString(e.Data)}
+			if e.Err != nil {
+				ev.E = e.Err.Error()
+			}
+			tr.Reads = append(tr.Reads, ev)
+		}
 	}
 	enc.Encode(&tr)
 }
